@@ -1,7 +1,7 @@
 """C14 — schema validator accepts exactly valid chains (structural part). DESIGN §4 C14."""
 import ast
 
-from .common import ctx, returns, calls_in_ctx, reach_from_succ, site, srcs_text, const_bool, resolve_call, bound_args, test_awaited_call, explore, full_text, alias_text
+from .common import self_attr, inline_ast, ctx, returns, calls_in_ctx, reach_from_succ, site, srcs_text, const_bool, resolve_call, bound_args, test_awaited_call, explore, full_text, alias_text
 from ..flow import callee_attr
 from ..loader import AnalysisError, norm, FuncT
 from ..verdict import EnumDomain, enum_members, pruned_edges
@@ -383,5 +383,77 @@ def run(R):
                    'with the default storage) shares it, and a key validated under one trust anchor / schema is accepted under another', P.path_of(m_))
         else:
             R.ok('C14.PRV.2', inst, P.path_of(m_))
+    # ... and under the full certificate name: a cache entry stands for "this certificate was fetched and validated", so the key it is filed
+    # under must distinguish every certificate name (no slice / truncation of the name), and load and save must file alike
+    for (m_, c_), cls in sorted(P.classes.items()):
+        if m_ != CV or not any(b == (CV, 'PublicKeyStorage') for b in P.mro(m_, c_)[1:]):
+            continue
+        keys = {}
+        for meth in ('load', 'save'):
+            q = f'{m_}.{c_}.{meth}'
+            if q not in P.funcs:
+                continue
+            mx = ctx(R, q)
+            pname = mx.f.node.args.args[1].arg if len(mx.f.node.args.args) > 1 else None
+            for n_ in mx.cfg.nodes:
+                if n_.ast is None:
+                    continue
+                for x in ast.walk(n_.ast):
+                    k = None
+                    if isinstance(x, ast.Subscript) and self_attr(x.value):
+                        k = x.slice
+                    elif isinstance(x, ast.Call) and callee_attr(x) in ('get', 'pop', 'setdefault') and self_attr(x.func.value) and x.args:
+                        k = x.args[0]
+                    if k is not None:
+                        keys.setdefault(meth, []).append((mx, n_, k, pname))
+        if not keys:
+            continue        # a store without a table (EmptyKeyStorage)
+        inst = f'{m_}.{c_} :: filed under the full certificate name'
+        probs = []
+        texts = {}
+        for meth, lst in keys.items():
+            for (mx, n_, k, pname) in lst:
+                t = full_text(mx, k)
+                texts.setdefault(meth, set()).add(t.replace(pname or '\0', '<name>'))
+                cut = [y for y in ast.walk(inline_ast(mx, k)) if isinstance(y, ast.Subscript) and isinstance(y.value, ast.Name) and y.value.id == pname]
+                if pname is None or pname not in {y.id for y in ast.walk(inline_ast(mx, k)) if isinstance(y, ast.Name)}:
+                    probs.append((mx, k, f'{meth}: the table key `{t}` does not depend on the certificate name'))
+                elif cut:
+                    probs.append((mx, k, f'{meth}: the table key `{t}` is computed from a part of the certificate name (`{ast.unparse(cut[0])}`): certificates '
+                                  'that differ only in the rest share an entry, so a certificate that was never fetched (or cannot be retrieved) is taken '
+                                  'as validated once another certificate of the same key was'))
+        if not probs and len(texts) == 2 and texts['load'] != texts['save']:
+            probs.append((keys['load'][0][0], keys['load'][0][2], f'load looks under {sorted(texts["load"])}, save files under {sorted(texts["save"])}'))
+        if probs:
+            for (mx, k, what) in probs:
+                R.fail('C14.PRV.2', inst, mx.qual, k, what, site(mx, k))
+        else:
+            R.ok('C14.PRV.2', inst, P.path_of(m_))
+    # the verdict depends on the packet, the schema, the anchor and the retrievable certificates only: validate() keeps no working state on the
+    # checker object that its own decisions read (validations run concurrently - every fetch is an await - and would see each other's state)
+    R.ob('C14.PRV.3', 'CascadeChecker.validate decides nothing by instance state that it writes itself (concurrent validations of one validator are independent)')
+    vx = ctx(R, CC + '.validate')
+    written = {}
+    for n_ in vx.cfg.nodes:
+        if n_.kind == 'stmt' and isinstance(n_.ast, (ast.Assign, ast.AugAssign, ast.AnnAssign)):
+            tg = n_.ast.targets if isinstance(n_.ast, ast.Assign) else [n_.ast.target]
+            for t in tg:
+                if self_attr(t):
+                    written.setdefault(t.attr, n_)
+    read_in_tests = {}
+    for n_ in vx.cfg.nodes:
+        if n_.kind == 'test':
+            for x in ast.walk(n_.ast):
+                if self_attr(x) and x.attr in written:
+                    read_in_tests.setdefault(x.attr, n_)
+    inst = f'{CC}.validate :: no self-written state decides the verdict'
+    if read_in_tests:
+        a = sorted(read_in_tests)[0]
+        R.fail('C14.PRV.3', inst, CC + '.validate', read_in_tests[a].ast, f'self.{a} is written by validate() (`{norm(written[a].ast)}`) and tested by it '
+               f'(`{norm(read_in_tests[a].ast)}`): the state belongs to the checker, not to the chain being walked, so validations that overlap in time '
+               '(each certificate fetch is an await) count into each other and the verdict for a packet depends on what else is being validated',
+               site(vx, read_in_tests[a].ast))
+    else:
+        R.ok('C14.PRV.3', inst, site(vx, vx.f.node), f'attributes written: {sorted(written)}')
     R.need(nst >= 2, f'only {nst} key storage classes found')
     R.assumptions += ['Cryptodome verifiers are sound', 'Checker.check / match semantics (C11, C12)', 'certificate retrieval behaviour is not decided']
